@@ -79,7 +79,9 @@ def gen_cases(tier, seed):
         cases.append({"kind": "shim", "seed": rng.randrange(1 << 48), "fmt": "legacy" if legacy else "lz4f",
                       "size": (26 * MB + 11 if i % 8 == 3 else 50 * MB + 3) if legacy else [13 * MB + 7, 21 * MB, 26 * MB + 5][i % 3],
                       "payload": ["random", "mixed"][i % 2], "strategy": strategies[i % len(strategies)],
-                      "N": [1, 2, 3, 4, 8][(i // 2) % 5], "mode": "free" if i % 5 == 4 else "coop"})
+                      "N": [1, 2, 3, 4, 8][(i // 2) % 5], "mode": "free" if i % 5 == 4 else "coop",
+                      # linked blocks: the reader chain hands the last 64 KB of a chunk to the next job
+                      "opts": [] if legacy or i % 2 == 0 else [["-BD"], ["-BD", "-B4"], ["-BD", "-BX"]][(i // 2) % 3]})
     # ---- model <-> real code under the scheduler shim: schedules generated from the model replayed on the real
     #      thread pool (event traces must be equal), and seeded real schedules checked for acceptance by the model
     n_sched = {"quick": 12, "search": 30, "thorough": 60}[tier]
@@ -288,20 +290,22 @@ def run_shim(st, case):
     detail = {k: case[k] for k in ("seed", "fmt", "size", "payload", "strategy", "N", "mode")}
     legacy = case["fmt"] == "legacy"
     N = case["N"]
+    copts = list(case.get("opts", []))
+    detail["opts"] = copts
     with mtlib.TmpDir() as d:
         src = os.path.join(d, "in")
         with open(src, "wb") as f:
             f.write(mtlib.gen_payload(rng, case["size"], case["payload"]))
         src_sha = mtlib.file_sha(src)
         ref = os.path.join(d, "ref.lz4")
-        if not cli(res, ctx["mt"], ["-f", "-q", "-T1"] + (["-l"] if legacy else []) + [src, ref], "MT compression -T1", detail):
+        if not cli(res, ctx["mt"], ["-f", "-q", "-T1"] + copts + (["-l"] if legacy else []) + [src, ref], "MT compression -T1", detail):
             return res
         ref_sha = mtlib.file_sha(ref)
         for rep in range(2):
             seed = rng.randrange(1 << 31)
             o = os.path.join(d, "o.lz4")
             env = strategy_env(case, N, N + 1, seed, d, "c")
-            if not cli(res, ctx["shim"], ["-f", "-q", "-T%d" % N] + (["-l"] if legacy else []) + [src, o],
+            if not cli(res, ctx["shim"], ["-f", "-q", "-T%d" % N] + copts + (["-l"] if legacy else []) + [src, o],
                        "compression under the %s scheduler (strategy %s, seed %d)" % (case["mode"], case["strategy"], seed), detail, env=env):
                 return res
             if mtlib.file_sha(o) != ref_sha:
@@ -394,7 +398,7 @@ def run_sched(st, case):
         del payload
         legacy = pipe in ("CL", "DL")
         ref = os.path.join(d, "ref.lz4")
-        if not cli(res, ctx["mt"], ["-f", "-q", "-T1"] + (["-l"] if legacy else []) + [src, ref], "MT compression -T1", detail):
+        if not cli(res, ctx["mt"], ["-f", "-q", "-T1"] + copts + (["-l"] if legacy else []) + [src, ref], "MT compression -T1", detail):
             return res
         if pipe in ("CL", "CF"):
             args = ["-f", "-q", "-T%d" % N] + (["-l"] if legacy else []) + [src, os.path.join(d, "o")]
